@@ -212,8 +212,11 @@ def _is_mutable_literal(dv):
 
 
 def _writes_or_stores(fnode, pname):
+    from ..structural import rebound_to_copy_before
     bad = []
     for n in ast.walk(fnode):
+        if isinstance(n, (ast.Assign, ast.AugAssign, ast.AnnAssign, ast.Call, ast.Return)) and rebound_to_copy_before(fnode, pname, n):
+            continue            # the name was rebound to a new container first: the default object itself is not touched
         if isinstance(n, (ast.Assign, ast.AugAssign, ast.AnnAssign)):
             tg = n.targets if isinstance(n, ast.Assign) else [n.target]
             for t in tg:
